@@ -90,6 +90,14 @@ Fixpoint take_y (k : nat) (i : Z) : option (list qi) :=
   end.
 
 Definition qx (v : Qc) : qi := qi_of_Qc v.
+
+(* d[i] = yp[base + i] + EPS.  This is the one place where binary64 rounding changes the control
+   flow of the function, so it is modelled: adding EPS = 1e-25 to a double whose real part has
+   magnitude >= 2^-29 returns that double unchanged (for flat data c[j+1] - d[j] is then exactly
+   0 and the recurrence stops at the cut-off test), while 0 + EPS = EPS.  The correspondence
+   uses data whose real parts are 0 or at least 2^-29 in magnitude. *)
+Definition add_eps (y : qi) : qi :=
+  if Qc_eq_dec (qre y) 0%Qc then qi_add y (qx eps) else y.
 Definition cabs_lt (z : qi) (t : Qc) : bool := Qcltb (qi_nrm z) (t * t)%Qc.   (* cabs(z) < t, t >= 0 *)
 
 (* for (j = 0; j < m - i - 1; ++j) { ... }       fuel = m - i - 1 - j;   Some None = goto done *)
@@ -135,26 +143,28 @@ Fixpoint outer (fuel : nat) (i base : Z) (c d : list qi) (y : qi) (cur : Z) (tr 
     end
   end.
 
+(* everything after the segment search *)
+Definition after (hint s : Z) : option (qi * Z * list bs_step) :=
+  do k <- knot_test s;
+  match k with
+  | Ret y => Some (y, hint, [])
+  | Near nearest =>
+    let base := window_base s nearest in
+    let cur := nearest - base in
+    if (0 <=? base) && (base <=? n - m) && (0 <=? cur) && (cur <? m) then
+      do c <- take_y (Z.to_nat m) base;
+      let d := map add_eps c in
+      do y0 <- rd yp (base + cur);
+      do r <- outer (Z.to_nat (m - 1)) 0 base c d y0 (cur - 1) [];
+      Some (fst r, s, snd r)
+    else None
+  end.
+
 (* value, new value of *ip_segment, recorded recurrence steps *)
 Definition rfi_full (hint : Z) : option (qi * Z * list bs_step) :=
   if (n <? 1) || (n <? m) || (m <? 1) then None          (* assert(n >= 1); assert(m <= n); c[m] *)
   else if n <? 2 then do y <- rd yp 0; Some (y, hint, [])
-  else
-    do s <- search (clamp hint);
-    do k <- knot_test s;
-    match k with
-    | Ret y => Some (y, hint, [])
-    | Near nearest =>
-      let base := window_base s nearest in
-      let cur := nearest - base in
-      if (0 <=? base) && (base <=? n - m) && (0 <=? cur) && (cur <? m) then
-        do c <- take_y (Z.to_nat m) base;
-        let d := map (fun y => qi_add y (qx eps)) c in
-        do y0 <- rd yp (base + cur);
-        do r <- outer (Z.to_nat (m - 1)) 0 base c d y0 (cur - 1) [];
-        Some (fst r, s, snd r)
-      else None
-    end.
+  else do s <- search (clamp hint); after hint s.
 
 Definition rfi (hint : Z) : option (qi * Z) :=
   do r <- rfi_full hint; Some (fst (fst r), snd (fst r)).
